@@ -163,7 +163,13 @@ fn finish(text: &str, inputs: Option<&str>, mut out: Vec<J>) -> Vec<J> {
     let inp: J = inputs.and_then(|t| serde_json::from_str::<J>(t).ok()).filter(|j| j.is_object())
         .map(|j| J::Object(j.as_object().unwrap().iter().map(|(k, v)| (k.clone(), serde_json::to_value(SerializableValue::from_json(v)).unwrap_or(J::Null))).collect()))
         .unwrap_or(json!({}));
-    out.push(match guarded(|| wasm_driver::evaluate(text, inp).is_ok()) { Err(m) => panic_event("wasmeval", m), Ok(true) => ev("wasmeval", "ok"), Ok(false) => ev("wasmeval", "err") });
+    out.push(match guarded(|| wasm_driver::evaluate(text, inp.clone()).is_ok()) { Err(m) => panic_event("wasmeval", m), Ok(true) => ev("wasmeval", "ok"), Ok(false) => ev("wasmeval", "err") });
+    // the WASM driver's inline evaluator (each text on its own, inputs also injected as plain names)
+    out.push(match guarded(|| wasm_driver::evaluate_inline_expressions(json!([text, "inputs"]), inp).is_ok()) { Err(m) => panic_event("inline", m), Ok(true) => ev("inline", "ok"), Ok(false) => ev("inline", "err") });
+    // a function value handed over in the serialised form the JS side holds, its body being this very text
+    let raw = json!({"g": {"Lambda": {"name": J::Null, "args": [{"Required": "x"}], "body": text, "scope": J::Null}}});
+    out.push(match guarded(|| wasm_driver::evaluate("g(1)", raw.clone()).is_ok()) { Err(m) => panic_event("wasmeval", m), Ok(true) => ev("wasmeval", "ok"), Ok(false) => ev("wasmeval", "err") });
+    out.push(match guarded(|| wasm_driver::evaluate_inline_expressions(json!(["g(1)"]), raw).is_ok()) { Err(m) => panic_event("inline", m), Ok(true) => ev("inline", "ok"), Ok(false) => ev("inline", "err") });
     out
 }
 
